@@ -29,7 +29,7 @@ man = {
     "setup_cmd": "./setup.sh",
     "hooks": {
         "guard": "cfg(kani) / cfg(test) modules injected into a scratch copy of /repo (no source change in /repo)",
-        "enable": "checks copy /repo's working tree to a scratch dir and append `#[cfg(kani)] #[path=..] mod ..;` / `#[cfg(test)] ..` lines at the end of the files whose private items a harness needs; MIR is dumped from the same copy with the nightly toolchain",
+        "enable": "checks copy /repo's working tree to a scratch dir and append `#[cfg(kani)] #[path=..] mod ..;` / `#[cfg(test)] ..` lines at the end of the files whose private items a harness needs; MIR is dumped from the same copy with the nightly toolchain; the lock-gated replay additionally builds its scratch copy against a run-time generated copy of the registry's parking_lot (version pinned in Cargo.lock) with one hook line in RawMutex::lock / RawRwLock::lock_shared / lock_exclusive, patched in through [patch.crates-io] of the scratch manifest, and its test binary pre-empts libc's rename/unlink/open64/write/fdatasync/fsync for gating and fault injection",
         "baseline_off_cmd": "cd /repo && cargo test --workspace --no-fail-fast --offline",
         "source_commits": [],
         "add_only": True,
